@@ -56,7 +56,15 @@ inductive Pc
   | eTxnNone | eTestW | ePop | eSet | eRel
   -- Zone.reader(), the read, _end_read
   | rdAcq | rdPick | rdAdd | rdRel | rdRet | rdBody | xAcq | xRemove | xPrune | xRel
+  -- reader(id=..) / reader(serial=..) found no such version: `raise KeyError` leaves the `with` (release)
+  | rdFail
   | done
+deriving DecidableEq, Repr
+
+/-- which version a reader asks for: `reader()`, `reader(id=k)`, or a lookup that finds nothing (an id or serial that no
+retained version has; which ids are retained is the business of pruning, C11, so "not found" is a parameter) -/
+inductive Pick
+  | latest | byId (k : Nat) | missing
 deriving DecidableEq, Repr
 
 structure Cfg where
@@ -68,6 +76,8 @@ structure Cfg where
   /-- the user-supplied pruning policy raises during the commit of thread `t` (an arbitrary callback: the model
   takes the outcome as a parameter, the theorems hold for every choice) -/
   pruneFails : Tid → Bool := fun _ => false
+  /-- the arguments of `reader()` -/
+  pick : Tid → Pick := fun _ => .latest
 
 structure Local where
   pc : Pc := .idle
@@ -196,7 +206,17 @@ def step (c : Cfg) (s : State) (t : Tid) : Option State :=
   -- reader(): with self._version_lock:
   | .rdAcq => if s.lock = none then some ({ s with lock := some t }.setLoc t { l with pc := .rdPick }) else none
   -- version = self._versions[-1]
-  | .rdPick => some (s.setLoc t { l with pc := .rdAdd, rver := s.lastVersion })
+  | .rdPick =>
+    match c.pick t with
+    | .latest => some (s.setLoc t { l with pc := .rdAdd, rver := s.lastVersion })
+    | .byId k =>
+      -- for v in reversed(self._versions): if v.id == id: ...   (ids are distinct)
+      match s.versions.find? (fun v => v.1 == k) with
+      | some v => some (s.setLoc t { l with pc := .rdAdd, rver := v })
+      | none => some (s.setLoc t { l with pc := .rdFail })
+    | .missing => some (s.setLoc t { l with pc := .rdFail })
+  -- raise KeyError("version not found" / "serial not found"): the `with` releases the lock
+  | .rdFail => some ({ s with lock := none }.setLoc t { l with pc := .done })
   -- self._readers.add(txn)
   | .rdAdd => some ({ s with readers := t :: s.readers }.setLoc t { l with pc := .rdRel })
   -- return txn (leaves the `with`: release)
@@ -239,7 +259,7 @@ def label (_c : Cfg) (s : State) (t : Tid) : Label :=
   match l.pc with
   | .idle | .wInit | .wTest | .wSetupId | .wSetupCopy | .wBody | .cPrune | .eTestW | .rdPick | .xPrune => .tau
   | .wAcq | .cAcq | .rAcq | .rdAcq | .xAcq => .acq
-  | .wRelA | .wRelB | .eRel | .rdRel | .xRel => .rel
+  | .wRelA | .wRelB | .eRel | .rdRel | .xRel | .rdFail => .rel
   | .wMkTxn => .txnOpen
   | .wClrEv => if s.writeEvent = none then .tau else .wevClear
   | .wNewEv => .new s.nextEv
